@@ -233,7 +233,7 @@ func genC19(seed uint64, run int, tier string) *Plan {
 			tp.Ops = append(tp.Ops, Op{K: "createIndex", DB: "db", C: c, D: jd(bson.D{{Key: "a", Value: int32(1)}}), Unique: r.IntN(3) == 0})
 		}
 	}
-	n := 3 + r.IntN(12)
+	n := deepen(tier, seed, 3+r.IntN(12))
 	for i := 0; i < n; i++ {
 		c := pick(r, g.colls...)
 		switch k := r.IntN(20); {
